@@ -83,6 +83,7 @@ def run_check(chk, repo, tier):
     chk.clause('C01-h', 'inverse: total gain 1/N when not unitary, sqrt|alpha_r*alpha_c| when unitary', 2)
     chk.clause('C01-i', 'out= finality: after the buffer is written every later update is in place and it is returned', 2)
     chk.clause('C01-j', 'memoised coordinate vectors are never written and never escape', 1)
+    chk.clause('C01-s', 'no operation in fourier.py mixes the two axes of one array (shape inference)', 1)
     chk.not_decided += ['element-wise equality with the defining sum to rounding', 'Parseval numerically']
 
     fdft = repo.func('fourier.dft2')
@@ -182,6 +183,7 @@ def run_check(chk, repo, tier):
     for key in ('fourier.dft2', 'fourier.idft2'):
         common.out_finality(chk, repo, key, 'C01-i')
 
+    common.shape_scan(chk, repo, 'C01-s', ['fourier'])
     # ---------------------------------------------------------------- C01-j
     common.cache_untouched(chk, repo, 'C01-j', modules=['fourier'])
 
